@@ -909,8 +909,8 @@ func main() {
 	for _, s := range st.samples {
 		r.Sample(s)
 	}
+	byKey := map[string]*protoViolation{}
 	for _, v := range st.viol {
-		a, _ := json.Marshal(v.c)
 		key := v.key
 		if cand, fallback, ok := strings.Cut(key, "|"); ok {
 			key = fallback
@@ -918,6 +918,17 @@ func main() {
 				key = cand
 			}
 		}
+		if cur := byKey[key]; cur == nil {
+			byKey[key] = &protoViolation{key: key, what: v.what, count: v.count, c: v.c}
+		} else {
+			cur.count += v.count
+			if caseLess(&v.c, &cur.c) {
+				cur.c, cur.what = v.c, v.what
+			}
+		}
+	}
+	for key, v := range byKey {
+		a, _ := json.Marshal(v.c)
 		addViol(key, "kfake-protocol", v.what, v.count, a)
 	}
 
